@@ -140,6 +140,36 @@ def boundary_traces(spec, kinds=("synth", "project"), w=True):
     return out
 
 
+def meta_foreign_variants(base):
+    """Forms of a MetaModule section that SunVox writes and this library's writer never does: a mapping block with
+    fewer than 96 entries (64, 27), labels without a terminating NUL.  base: nested chunk JSON; applied at every depth."""
+    def walk(cs, fn):
+        out, styp, chnm = [], b"", None
+        for c in cs:
+            c = dict(c)
+            if c["id"] == "SFFF":
+                styp, chnm = b"", None
+            elif c["id"] == "STYP":
+                styp = bytes(c["data"]).split(b"\0")[0]
+            elif c["id"] == "CHNM":
+                chnm = int.from_bytes(bytes(c["data"]), "little")
+            elif c["id"] == "CHDT":
+                if c["isn"]:
+                    c["nested"] = walk(c["nested"], fn)
+                elif styp == b"MetaModule":
+                    c["data"] = fn(chnm, list(c["data"]))
+            out.append(c)
+        return out
+    def strip_nul(chnm, d):
+        if chnm is not None and chnm >= 8:
+            while d and d[-1] == 0:
+                d.pop()
+        return d
+    return [("mappings-64", walk(base, lambda n, d: d[:64 * 4] if n == 1 else d)),
+            ("mappings-27", walk(base, lambda n, d: d[:27 * 4] if n == 1 else d)),
+            ("labels-unterminated", walk(base, strip_nul))]
+
+
 def load_event(data, spec):
     out, q = load(data)
     projection.pop_overflows()
